@@ -49,7 +49,13 @@ structure Input where
   scheme : Scheme
   chain : List CertId      -- the signature's certificate chain, leaf first
   statements : List Stmt
-  repo : Text              -- artifact path (reference without "@digest")
+  repo : Text              -- artifact path (reference without "@digest"), exactly as spelled
+  refOk : Bool             -- the reference is `<path>@<digest>` with a path of registry-scope format
+                           -- (domain[:port]/repository per the distribution specification - decided by the
+                           -- harness with its own copy of the two expressions); if not (a tag in front of the
+                           -- digest, ...) the reference is refused before any statement is looked at. Nothing
+                           -- else is done to the path: no registry aliasing (docker.io stays docker.io), no
+                           -- case folding, no port stripping - a scope matches only its exact spelling
   world : List Store
   identityOk : Bool        -- verdict of the trusted-identity check that shares the authenticity result:
                            -- natively `true` (trustedIdentities is "*"); with an installed verification
@@ -181,6 +187,10 @@ def applicable (stmts : List Stmt) (repo : Text) : Option Stmt :=
   | (_, some s) => some s
   | (w, none) => w
 
+/-- the statement the verification runs under: none when the reference is refused -/
+def selected (stmts : List Stmt) (repo : Text) (refOk : Bool) : Option Stmt :=
+  if refOk then applicable stmts repo else none
+
 /-! ### the scenario -/
 
 /-- the action of the authenticity validation is `log` (level audit, or overridden) -/
@@ -191,7 +201,7 @@ result afterwards, the trusted-identity check (native, or the verification plugi
 A trust store failure that is enforced returns before anything else runs; a logged one lets the
 workflow go on, and nothing that runs later may erase it. -/
 def run (i : Input) : Obs :=
-  match applicable i.statements i.repo with
+  match selected i.statements i.repo i.refOk with
   | none => { result := .noPolicy, calls := [], accepted := false }
   | some s =>
     let r := authenticity (lookup i.world) i.scheme i.chain s.trustStores
@@ -229,7 +239,7 @@ def nodupB : List Text → Bool
   | a :: as => !as.contains a && nodupB as
 
 def clauses (i : Input) (o : Obs) : Clauses :=
-  match applicable i.statements i.repo with
+  match selected i.statements i.repo i.refOk with
   | none =>
     [ ("no_applicable_statement_nothing_loaded_nothing_accepted",
         o.result == .noPolicy && o.calls.isEmpty && !o.accepted) ]
